@@ -42,7 +42,8 @@ class SRRLaser(Laser):
         info: dict[str, str] | None = None,
     ):
         assert len(data) > 1
-        self.data: list[np.ndarray] = data
+        # a list, so that layers can be replaced, e.g. when loaded as one stacked array
+        self.data: list[np.ndarray] = list(data)
         self.calibration = {name: Calibration() for name in self.elements}
         if calibration is not None:
             self.calibration.update(copy.deepcopy(calibration))
